@@ -2,7 +2,7 @@
    literal readers and printers used by the generated cases_*.v files of the correspondence. *)
 From Coq Require Import QArith Qcanon ZArith.
 From mathcomp Require Import all_ssreflect all_algebra.
-From GT Require Import QcField QcOrder Tensor DetExec LogDom Obj Factor Measure Pdf Cond.
+From GT Require Import QcField QcOrder Tensor DetExec LogDom Obj Factor Measure Pdf Cond Moments.
 Set Implicit Arguments.
 Unset Strict Implicit.
 Unset Printing Implicit Defensive.
@@ -76,3 +76,13 @@ Definition obs_cond (c : condQ) : seq Z :=
 Definition obs_all (u : measureQ) (xs : seq (seq Qc)) : seq Z :=
   obs_ueval u xs ++ obs_ucore u ++ obs_ucache u.
 Definition obs_fall (f : factorQ) (xs : seq (seq Qc)) : seq Z := obs_feval f xs ++ obs_fcore f.
+
+(* ---- polynomial integrals (C03) ---- *)
+Definition cm2 (K : nat) (l : seq (seq Qc)) : cmat QF := M2 K (lm l).
+Definition cm3 (RA K : nat) (l : seq (seq (seq Qc))) : cmat QF := M3 RA K (lb3 l).
+Definition cv1 (l : seq Qc) : cvec QF := V1 (lv l).
+Definition cv2 (Ra : nat) (l : seq (seq Qc)) : cvec QF := V2 Ra (lb2 l).
+Definition dF (x : Qc) : seq Z := dumpF x.
+Definition perR (R : nat) (f : nat -> seq Z) : seq Z := flatten [seq f r | r <- iota 0 R].
+(* log-mass of every component, then the expectation entries *)
+Definition obs_mass (u : measureQ) : seq Z := dL (uR u) (log_mass u).
